@@ -24,3 +24,15 @@ Definition route_verdict (x : script * list rcmd) : list nat :=
   [if rcmds_eqb (diff_croutes m) impl then 0 else 1;
    match rexec_all (listA m) impl with Some t => if same_routes t (listB m) then 0 else 1 | None => 2 end].
 Definition route_verdicts (l : list (script * list rcmd)) : list nat := flat_map route_verdict l.
+
+(* several VRFs / several routes per destination (IOS): the target routes plus the device routes of the VRFs
+   for which the target has none *)
+Definition expected_routes (m : script) : list route :=
+  listB m ++ filter (fun r => negb (vrf_managed m r)) (listA m).
+Definition route_verdict_vrf (ios : bool) (x : script * list rcmd) : list nat :=
+  let '(m, impl) := x in
+  [if rcmds_eqb (diff_croutes_vrf m) impl then 0 else 1;
+   match (if ios then rexec_all_ios else rexec_all) (listA m) impl with
+   | Some t => if same_routes t (expected_routes m) then 0 else 1
+   | None => 2 end].
+Definition route_verdicts_vrf (ios : bool) (l : list (script * list rcmd)) : list nat := flat_map (route_verdict_vrf ios) l.
